@@ -62,8 +62,18 @@ def sp_host(cfg):
     def fdel(self):
         self.base = 0
 
-    prop = spec_property(fget, fset if cfg["setter"] else None, fdel if cfg["deleter"] else None,
-                         overridable=cfg["overridable"], cache=cfg["cache"])
+    if cfg.get("form") == "decorator":
+        # the documented decorator spelling: every `.getter` / `.setter` / `.deleter` step returns a new property, which must
+        # keep all the options of the one it was derived from
+        prop = spec_property(fget, overridable=cfg["overridable"], cache=cfg["cache"])
+        if cfg["setter"]:
+            prop = prop.setter(fset)
+        if cfg["deleter"]:
+            prop = prop.deleter(fdel)
+        prop = prop.getter(fget)
+    else:
+        prop = spec_property(fget, fset if cfg["setter"] else None, fdel if cfg["deleter"] else None,
+                             overridable=cfg["overridable"], cache=cfg["cache"])
     ns = {"base": 1, "p": prop}
     host = cfg["host"]
     bases = ()
@@ -216,8 +226,16 @@ def cp_classes(cfg):
     def fdel(cls):
         cls.base = 0
 
-    prop = classproperty(fget, fset if cfg["setter"] else None, fdel if cfg["deleter"] else None,
-                         overridable=cfg["overridable"], cache=cfg["cache"], cache_per_subclass=cfg["per_subclass"])
+    if cfg.get("form") == "decorator":
+        prop = classproperty(fget, overridable=cfg["overridable"], cache=cfg["cache"], cache_per_subclass=cfg["per_subclass"])
+        if cfg["setter"]:
+            prop = prop.setter(fset)
+        if cfg["deleter"]:
+            prop = prop.deleter(fdel)
+        prop = prop.getter(fget)
+    else:
+        prop = classproperty(fget, fset if cfg["setter"] else None, fdel if cfg["deleter"] else None,
+                             overridable=cfg["overridable"], cache=cfg["cache"], cache_per_subclass=cfg["per_subclass"])
     A = type("A", (), {"base": 1, "p": prop})
     B = type("B", (A,), {})
     C = type("C", (B,), {})
@@ -337,11 +355,17 @@ def sp_configs():
     for host in HOSTS:
         for o, c, s, d in itertools.product([False, True], repeat=4):
             yield {"host": host, "overridable": o, "cache": c, "setter": s, "deleter": d}
+    for host in ("plain", "spec_managed"):
+        for o, c, s, d in itertools.product([False, True], repeat=4):
+            yield {"host": host, "overridable": o, "cache": c, "setter": s, "deleter": d, "form": "decorator"}
 
 
 def cp_configs():
     for o, c, p, s, d in itertools.product([False, True], repeat=5):
         yield {"overridable": o, "cache": c, "per_subclass": p, "setter": s, "deleter": d}
+    for o, c, p, s, d in itertools.product([False, True], repeat=5):
+        if s or d:
+            yield {"overridable": o, "cache": c, "per_subclass": p, "setter": s, "deleter": d, "form": "decorator"}
 
 
 def units(tier, seed):
